@@ -52,15 +52,35 @@ Theorem C18_tokens_after_first_unknown_intact : forall p fuel1 m0 pre m1 t rest 
   m_unparsed m' = t :: rest.
 Proof. exact tokens_after_first_unknown_intact. Qed.
 
-(** Placement equivalence -- FALSE at full strength, three ways. *)
-Theorem C18_placement_refuted_glued :
-  exists cs groups opt j flags,
-    model_spec cs groups opt j flags None = false /\
-    (exists r, model_program cs ["-T5"; "a"] = Ok r /\ kw_get "command-timeout" (g_core r) = Some (AInt 5)) /\
-    (exists r, model_program cs ["a"; "-T5"] = Ok r /\ kw_get "command-timeout" (g_core r) = Some (AInt (-5))) /\
-    model_program cs ["a"; "-fpath"] = Err EParse.
-Proof. exact refuted_glued. Qed.
+(** F-C18a (repaired by dd95c66), now a positive statement: a core option with
+    its value glued to the short flag means the same inside a task's argument
+    list -- [a -T5] sets the command timeout to 5 like [-T5 a], [a -fpath]
+    parses and selects the runtime configuration file; the complete [spec_ok]
+    holds on the former witness.  (The universally quantified form is
+    [C18_prefix_placement_equiv_partial] below, where CGlued is admissible at
+    every placement.) *)
+Theorem C18_glued_inside_task :
+  model_spec [task_a] [["a"]] ["-T5"] 1 ["-T"] None = true /\
+  (exists r, model_program [task_a] ["-T5"; "a"] = Ok r /\ kw_get "command-timeout" (g_core r) = Some (AInt 5)) /\
+  (exists r, model_program [task_a] ["a"; "-T5"] = Ok r /\ kw_get "command-timeout" (g_core r) = Some (AInt 5)) /\
+  (exists r, model_program [task_a] ["a"; "-fpath"] = Ok r /\ kw_get "config" (g_core r) = Some (AStr "path")).
+Proof. exact glued_inside_task. Qed.
 
+(** Historical record (F-C18a, fixed): [presplit_old] is the token-splitting
+    rule as it was before dd95c66 (current context only).  On the machine that
+    has just entered task "a" it tore "-T5" into "-T" "-5" and "-fpath" into
+    "-f" "-p" "-a" "-t" "-h"; the repaired rule yields the flag and its glued
+    value.  (A revert is caught by the harness: corpus/C18 keeps the witness.) *)
+Theorem C18_placement_glued_historical_refuted :
+  (exists fuel m, new_machine (mkP [task_a] (Some core_ctx) false) = Ok m /\
+                  loop (mkP [task_a] (Some core_ctx) false) fuel m ["a"] = Some (Ok in_task_a)) /\
+  presplit_old in_task_a "-T5" = Ok ("-T", ["-5"]) /\
+  presplit in_task_a "-T5" = Ok ("-T", ["5"]) /\
+  presplit_old in_task_a "-fpath" = Ok ("-f", ["-p"; "-a"; "-t"; "-h"]) /\
+  presplit in_task_a "-fpath" = Ok ("-f", ["path"]).
+Proof. exact glued_historical_refuted. Qed.
+
+(** Placement equivalence -- FALSE at full strength, in two ways (plus F-C18d). *)
 Theorem C18_placement_refuted_swallowed :
   exists cs groups opt j flags,
     model_spec cs groups opt j flags None = false /\
@@ -120,7 +140,7 @@ Proof. exact core_bool_flag_in_task_context. Qed.
     MISSING for full strength: value-taking core options, spellings other than
     the exact flag (clusters), richer task spellings, and the composition with
     the core pass + _update_core_context (covered by the correspondence and the
-    bounded sweep only); and the three findings. *)
+    bounded sweep only); and the recorded findings (F-C18b, F-C18c, F-C18d). *)
 Theorem C18_placement_equiv_partial :
   forall (cs : list ctxspec) (ic : ctxspec) (tok : string) (i : nat) (r : rarg),
     clean_flag tok = true ->
@@ -204,16 +224,17 @@ Proof. exact program_placement_equiv. Qed.
       - an exact flag spelling ([clean_flag]) that resolves to the argument it
         names, not --help;
       - CBare: a boolean non-counter option;  CNext "--opt value" / CEq
-        "--opt=value" / CGlued "-ovalue" (front only, short flag, non-empty
-        value without "="): a value-taking, non-list option not given before,
-        value not starting with "-", an integer text for int options, and for
-        an optional-value option not a task name;
-    moved together to after ANY complete item of ANY call of a simple invocation
-    (glued ones respelled with "="), provided the task there does not shadow any
-    of them and none is a task name ([copt_free]).  Guard of the boolean form:
-    placement after a complete item, no pending value, no missing positional
-    (simple fragment: tasks without required positionals), form <> glued inside
-    a task -- exactly the complement of F-C18a/b/c on this fragment.
+        "--opt=value" / CGlued "-ovalue" (short flag, non-empty value without
+        "="): a value-taking, non-list option not given before, value not
+        starting with "-", an integer text for int options, and for an
+        optional-value option not a task name;
+    moved together -- in the very same spellings, glued included (repair
+    dd95c66) -- to after ANY complete item of ANY call of a simple invocation,
+    provided the task there does not shadow any of them and none is a task name
+    ([copt_free]).  Guard of the boolean form: placement after a complete item,
+    no pending value, no missing positional (simple fragment: tasks without
+    required positionals) -- exactly the complement of F-C18b/c on this
+    fragment.
     Task-parsing pass: literally the same result. *)
 Theorem C18_prefix_placement_equiv_partial :
   forall cs ic os calls1 t asn items1 items2 calls2 c,
@@ -221,12 +242,12 @@ Theorem C18_prefix_placement_equiv_partial :
     simple_guard cs ic inv = true ->
     nth_error cs t = Some c ->
     forallb (copt_free cs c) os = true ->
-    copts_ok true cs (rc_args (init_ctx ic)) os = true ->
+    copts_ok cs (rc_args (init_ctx ic)) os = true ->
     exists res,
       parser_parse cs (Some ic) false (flat_map spell_copt os ++ spell cs inv) = Ok res /\
       parser_parse cs (Some ic) false
         (spell cs calls1 ++ (asn :: flat_map (spell_item c) items1)
-         ++ flat_map spell_copt (map unglue os) ++ flat_map (spell_item c) items2 ++ spell cs calls2)
+         ++ flat_map spell_copt os ++ flat_map (spell_item c) items2 ++ spell cs calls2)
         = Ok res /\
       map obs_of_ctx (tl (pr_ctxs res)) = expected cs inv.
 Proof. exact core_prefix_placement_equiv. Qed.
@@ -239,11 +260,11 @@ Theorem C18_program_prefix_placement_equiv_partial :
     simple_guard cs ic inv = true ->
     nth_error cs t = Some c ->
     forallb (copt_free cs c) os = true ->
-    copts_ok true cs (rc_args (init_ctx ic)) os = true ->
+    copts_ok cs (rc_args (init_ctx ic)) os = true ->
     exists gf gp,
       prog_obs ic cs (flat_map spell_copt os ++ spell cs inv) = Ok gf /\
       prog_obs ic cs (spell cs calls1 ++ (asn :: flat_map (spell_item c) items1)
-                      ++ flat_map spell_copt (map unglue os)
+                      ++ flat_map spell_copt os
                       ++ flat_map (spell_item c) items2 ++ spell cs calls2) = Ok gp /\
       g_core gf = g_core gp /\ g_tasks gf = g_tasks gp /\ g_tasks gp = expected cs inv /\
       g_remainder gf = g_remainder gp.
@@ -261,11 +282,11 @@ Theorem C18_placement_same_overrides_partial :
     simple_guard cs ic inv = true ->
     nth_error cs t = Some c ->
     forallb (copt_free cs c) os = true ->
-    copts_ok true cs (rc_args (init_ctx ic)) os = true ->
+    copts_ok cs (rc_args (init_ctx ic)) os = true ->
     exists gf gp,
       prog_obs ic cs (flat_map spell_copt os ++ spell cs inv) = Ok gf /\
       prog_obs ic cs (spell cs calls1 ++ (asn :: flat_map (spell_item c) items1)
-                      ++ flat_map spell_copt (map unglue os)
+                      ++ flat_map spell_copt os
                       ++ flat_map (spell_item c) items2 ++ spell cs calls2) = Ok gp /\
       overrides_from gf pw = overrides_from gp pw /\
       ProgramModel.runtime_path_of (coreargs_of (g_core gf) pw) None
@@ -286,7 +307,7 @@ Proof. exact overrides_example. Qed.
     is handed to the task pass. *)
 Theorem C18_core_prefix_partial : forall ic cs os t rest,
   has_missing (init_ctx ic) = false ->
-  copts_ok true cs (rc_args (init_ctx ic)) os = true ->
+  copts_ok cs (rc_args (init_ctx ic)) os = true ->
   starts_with "-" t = false ->
   Forall (fun x => x <> "--") (t :: rest) ->
   parser_parse [] (Some ic) true (flat_map spell_copt os ++ t :: rest)
@@ -294,21 +315,20 @@ Theorem C18_core_prefix_partial : forall ic cs os t rest,
 Proof. exact core_pass_prefix. Qed.
 
 (** Non-vacuity: "-e --config=x.yml -T5 -D 2" (boolean, "=", glued, spaced) of
-    the real core context, in front vs. in the middle of the first call
-    (-T5 respelled -T=5). *)
+    the real core context, in front vs. in the middle of the first call (same
+    spellings, -T5 included). *)
 Example C18_prefix_hypotheses_inhabited :
   let os := [mkCopt "-e" 5 CBare ""; mkCopt "--config" 2 CEq "x.yml";
              mkCopt "-T" 0 CGlued "5"; mkCopt "-D" 9 CNext "2"] in
-  copts_ok true ex_cs (rc_args (init_ctx core_ctx)) os = true /\
+  copts_ok ex_cs (rc_args (init_ctx core_ctx)) os = true /\
   flat_map spell_copt os = ["-e"; "--config=x.yml"; "-T5"; "-D"; "2"] /\
-  flat_map spell_copt (map unglue os) = ["-e"; "--config=x.yml"; "-T=5"; "-D"; "2"] /\
   exists gf gp,
     prog_obs core_ctx ex_cs ["-e"; "--config=x.yml"; "-T5"; "-D"; "2"; "b"; "-i"; "a"; "--clean"; "deploy"; "-t=prod"] = Ok gf /\
-    prog_obs core_ctx ex_cs ["b"; "-i"; "a"; "-e"; "--config=x.yml"; "-T=5"; "-D"; "2"; "--clean"; "deploy"; "-t=prod"] = Ok gp /\
+    prog_obs core_ctx ex_cs ["b"; "-i"; "a"; "-e"; "--config=x.yml"; "-T5"; "-D"; "2"; "--clean"; "deploy"; "-t=prod"] = Ok gp /\
     g_core gf = g_core gp /\ g_tasks gf = g_tasks gp /\
     kw_get "command-timeout" (g_core gp) = Some (AInt 5) /\ kw_get "config" (g_core gp) = Some (AStr "x.yml").
 Proof.
-  cbv zeta. split; [vm_compute; reflexivity|]. split; [reflexivity|]. split; [reflexivity|].
+  cbv zeta. split; [vm_compute; reflexivity|]. split; [reflexivity|].
   eexists. eexists. split; [vm_compute; reflexivity|]. split; [vm_compute; reflexivity|].
   repeat split; vm_compute; reflexivity.
 Qed.
@@ -360,8 +380,9 @@ Qed.
 (** A TEST, not the property: all 440 combinations of (core option except
     --help) x (long/short; spaced, "=", glued) x (8 boundaries of a fixed
     two-call invocation) satisfy the complete [spec_ok] on the model, except
-    inside the three catalogued regions (glued inside a task; before a pending
-    positional; after a value-less optional-value flag). *)
+    inside the two catalogued regions (before a pending positional; after a
+    value-less optional-value flag) and the spec's explicit don't-care region
+    [glued_cluster_reading] (Spec/C18Spec.v). *)
 Theorem C18_placement_bounded_440 :
   forallb sweep18_ok sweep_cases = true /\ List.length sweep_cases = 440.
 Proof. exact (conj placement_sweep placement_sweep_size). Qed.
